@@ -272,3 +272,24 @@ def dpkg_deb_build(workdir, control_text, scripts, md5sums, files, compression):
         return None, r.stderr.decode("utf-8", "replace")[-300:]
     with open(out, "rb") as f:
         return f.read(), ""
+
+
+# ------------------------------------------------------------------------------------------
+# ar: the byte after the last member
+
+
+def ar_archive_bytes(members, final_pad=True):
+    """The archive of ``ar_archive(members)``, with or without the pad byte after the LAST member.
+
+    ar(5) puts a newline after odd-sized data so that the *next* header starts on an even offset
+    ("a newline is inserted between files if necessary").  GNU ar and dpkg-deb also write it after
+    the last member, where nothing follows it; a writer that leaves it out produces a file that
+    ends right after the last member's data.  ``final_pad=False`` gives that file; it differs from
+    the padded one only when there is a last member and its size is odd.
+    """
+    members = list(members)
+    raw, _ = ar_archive(members)
+    if not final_pad and members and len(members[-1]["data"]) % 2:
+        assert raw[-1:] == b"\n"
+        raw = raw[:-1]
+    return raw
